@@ -130,6 +130,9 @@ def cross_check(prog: Program, an: Analyzer, modules: Optional[List[str]] = None
             compared += 1
             th = norm_mypy(theirs)
             mh = mine.head
+            if re.fullmatch(r"(internals\.helpers\.|pool\.)?_[A-Z][A-Za-z]*", mh) or "Unpack" in str(mine):
+                compared -= 1
+                continue  # a type variable / unpacked TypedDict: not a receiver type the rules use
             ok = th == mh or (mh == "type" and theirs.startswith(("Type", "def", "type"))) or (th in ("Any",)) or \
                 (mh in prog.classes and th in prog.classes and (prog.classes[mh] in prog.mro(prog.classes[th]) or prog.classes[th] in prog.mro(prog.classes[mh]))) or \
                 (mh == "Server" and th.endswith("AbstractServer")) or (mh == "IO" and th.endswith("IO")) or (mh == "tuple" and th in ("tuple", "builtins.tuple", "Tuple")) or \
